@@ -47,6 +47,7 @@ import (
 
 var ctx = context.Background()
 var unusedDepWitnesses int
+var xBuiltWS []xBuilt // the workspaces of Part X2, for the binary leg X3 (run from partB)
 var logger = slog.New(slog.NewTextHandler(io.Discard, nil))
 
 func must[T any](v T, err error) T {
@@ -70,13 +71,17 @@ func main() {
 		replay(run, run.Args[1:])
 		return
 	}
-	// C11_PARTS=a1,a2,c,l,f,b,b2,b3,b4,b5 restricts a run to some parts (replay / development); the
+	// C11_PARTS=a1,a2,c,l,f,x1,x2,x3,b,b2,b3,b4,b5 restricts a run to some parts (replay / development); the
 	// generators fork per part, so a part produces the same cases alone as in a full run.
 	timed("A1", on("a1"), func() { partA1(run, r.Fork(1)) })
 	timed("A2", on("a2"), func() { partA2(run, r.Fork(2)) })
 	timed("C", on("c"), func() { partC(run, r.Fork(3)) })
 	timed("L", on("l"), func() { partL(run, r.Fork(5)) })
 	timed("F", on("f"), func() { partF(run, r.Fork(8)) })
+	// Part X (partx.go): the extension bits of every rebuilt image file
+	xo = &xOracle{run: run, count: map[string]int{}}
+	timed("X1", on("x1"), func() { partX1(run, r.Fork(9)) })
+	timed("X2", on("x2"), func() { xBuiltWS = partX2(run, r.Fork(10)) })
 	partB(run, r.Fork(4))
 }
 
@@ -115,6 +120,9 @@ func replay(run *hx.Run, args []string) {
 		os.Exit(2)
 	}
 	line := args[0]
+	if !strings.Contains(line, "\t") {
+		line = strings.ReplaceAll(line, "\\t", "\t") // the recorded replay commands quote the line with %q
+	}
 	fields := strings.Split(line, "\t")
 	switch fields[0] {
 	case "iwop":
@@ -123,8 +131,19 @@ func replay(run *hx.Run, args []string) {
 	case "tgt":
 		ws := parseWS(fields[1])
 		fmt.Println(runTgt(run, ws, parseStrs(fields[2]), parseStrs(fields[3]), line))
-	case "strip":
-		fmt.Println(runStrip(run, []byte(hx.Dec(fields[1])), line))
+	case "xflt":
+		xo = &xOracle{run: run, count: map[string]int{}}
+		if fields[1] == "tflt" {
+			fmt.Fprintln(os.Stderr, "tflt lines restate what bufimageutil.FilterImage did to a compiled workspace; re-run Part X2 with C11_PARTS=x2")
+			os.Exit(2)
+		}
+		img, err := imageFromXIn(fields[2])
+		if err != nil {
+			fmt.Println("err:build:" + err.Error())
+			return
+		}
+		// payload hashes of the rebuilt descriptors differ from the recorded line; everything else is the same
+		fmt.Println(runXflt(run, img, fields[1], parseStrs(fields[3]), parseStrs(fields[4]), line))
 	case "pimg":
 		fmt.Println(runPimg(run, fields, line))
 	default:
@@ -682,8 +701,9 @@ func buildWS(ws workspace, paths, excl []string, withPaths bool) (bufimage.Image
 		if err != nil {
 			return nil, err
 		}
-		opts := []bufmodule.LocalModuleOption{
-			bufmodule.LocalModuleWithFullNameAndCommitID(must(bufparse.ParseFullName(m.name)), uuid.NewSHA1(uuid.NameSpaceURL, []byte(m.name))),
+		var opts []bufmodule.LocalModuleOption
+		if m.name != "" { // Part X2 has unnamed modules
+			opts = append(opts, bufmodule.LocalModuleWithFullNameAndCommitID(must(bufparse.ParseFullName(m.name)), uuid.NewSHA1(uuid.NameSpaceURL, []byte(m.name))))
 		}
 		if withPaths && m.target {
 			opts = append(opts, bufmodule.LocalModuleWithTargetPaths(paths, excl))
